@@ -204,7 +204,53 @@ func c28GenLim(r *vu.Rng) int {
 	}
 }
 
+// c28GenLongFill: a long-header packet whose payload fills the packet, with a datagram limit
+// around (and well above) the capacity of the 2-byte Length field: header + 16383 +- a few bytes.
+func c28GenLongFill(r *vu.Rng) string {
+	pnum, ma, rm := c28GenPN(r)
+	ptype := r.Range(1, 3)
+	dcid, scid := r.Bytes(r.Intn(21)), r.Bytes(r.Intn(21))
+	tok := []byte(nil)
+	if r.Bool() {
+		tok = r.Bytes(r.Intn(70))
+	}
+	hdr := 1 + 4 + 1 + len(dcid) + 1 + len(scid) + 2
+	if ptype == 1 {
+		hdr += 1 + len(tok)
+		if len(tok) > 63 {
+			hdr++
+		}
+	}
+	lim := hdr + 16383 + r.Range(-6, 6)
+	switch r.Intn(4) {
+	case 0:
+		lim = []int{20000, 32768, 65527, 65536}[r.Intn(4)]
+	case 1:
+		lim = r.Range(16300, 16500)
+	}
+	fill := lim + r.Range(-30, 10) // more than fits: the harness truncates to avail
+	if r.Chance(1, 4) {
+		fill = lim - hdr - 16 - r.Range(0, 8)
+	}
+	if fill < 1 {
+		fill = 1
+	}
+	return fmt.Sprintf("pkt longfill %s %d %d %s %s %s %d %d %d %d %d %d", c28Suite(r), ptype,
+		[]uint32{1, 0x11223344}[r.Intn(2)], vu.Hex(dcid), vu.Hex(scid), vu.Hex(tok), pnum, ma, rm, fill, r.Intn(256), lim)
+}
+
+func c28FillBytes(n, b int) []byte {
+	p := make([]byte, n)
+	for i := range p {
+		p[i] = byte(b + i)
+	}
+	return p
+}
+
 func c28GenPacket(r *vu.Rng) []string {
+	if r.Chance(1, 60) {
+		return []string{c28GenLongFill(r)}
+	}
 	switch r.Intn(10) {
 	case 0, 1, 2, 3:
 		pnum, ma, rm := c28GenPN(r)
@@ -300,7 +346,7 @@ func c28ExecPacket(op string, t []string, o *vu.Out) {
 	if res == "panic" {
 		// the only panic in the contract: AppendUint8Bytes on a connection ID over 255 bytes
 		expected := false
-		if len(t) == 13 && t[1] == "long" {
+		if (len(t) == 13 && t[1] == "long") || (len(t) == 14 && t[1] == "longfill") {
 			d, _ := vu.ParseHex(t[5])
 			s, _ := vu.ParseHex(t[6])
 			expected = len(d) > 255 || len(s) > 255
@@ -322,6 +368,16 @@ func c28PNArgs(a, b, c string) (pnum packetNumber, maxAcked, recvMax packetNumbe
 }
 
 func c28ExecPacket1(op string, t []string, o *vu.Out) string {
+	if t[1] == "longfill" && len(t) == 14 {
+		// same as "long" with payload = fill bytes (b, b+1, ...) given by length
+		n, b := vu.Atoi(t[11]), vu.Atoi(t[12])
+		if n < 0 || n > 70000 || b < 0 || b > 255 {
+			return "bad-op"
+		}
+		o.Stat("pkt:longfill")
+		t = append(append(append([]string{}, t[:11]...), vu.Hex(c28FillBytes(n, b))), t[13])
+		t[1] = "long"
+	}
 	switch {
 	case t[1] == "long" && len(t) == 13:
 		k, ok := c28Fixed(t[2])
